@@ -6,6 +6,10 @@ ROOT = os.path.dirname(os.path.dirname(os.path.abspath(__file__)))
 
 # id -> (level category, level text, level note, technique, design ref)
 CHECKS = {
+ "C08": ("exploration",
+   "Race-detector build. (1) a Write is forced into the window between Buffer.Commit's digest check and its store through a verif scheduling point, every run; (2) stress of the named invariants (a tag kept on an existing manifest is never reported missing, direct and over HTTP; a commit under concurrent writers stores bytes matching its digest); (3) 1.5e3/2e4 short concurrent histories with unique values recorded at the call boundary and checked by porcupine against the sequential reference model; (4) 2-16 goroutines hammering 2 repositories, 3 blobs, 2 tags and 2 shared upload sessions directly and through ociserver, under GOMAXPROCS 2/4/16. Schedules are sampled: a race on a path or interleaving no workload produced stays invisible.",
+   "Trusted: Go race detector, porcupine v1.3.0, the reference model as sequential specification. Histories use at most one Commit per session and no Cancel. Porcupine is applied to direct-call histories only.",
+   "race detector + porcupine linearizability checking of recorded histories + invariant monitors + forced interleaving via tag-guarded hook", "3/C08"),
  "C14": ("exploration",
    "Three history monitors and one concurrent phase: ReadOnly over a recording backend (no mutating backend method ever invoked, mutations refused as unsupported, reads equal direct reads, state unchanged); Immutable wrapper and ocimem ImmutableTags with a monitor that after EVERY call re-resolves every tag it has seen and re-reads everything it knows present / referenced-at-tag-time, with extra operations aimed at those protections; 8-16 goroutines on ImmutableTags under the race detector with agreement of all successful tag observations and reachability at quiescence.",
    "Trusted: the monitor's own bookkeeping and the independent manifest parser. Truthful descriptors in generated manifests; a subject is not required to remain; protected set = what was present when the tag was first observed.",
